@@ -8,6 +8,7 @@ for d in $here/seeded/*/; do
   id=$(basename $d)
   props=$(python3 -c "import json,re;print(' '.join(re.findall(r'C\d\d', json.load(open('$d/meta.json'))['breaks_property'])))")
   [ -n "$props" ] || continue
+  [ -f $d/patch.diff ] || { echo "$id: (patch does not apply to the current tree - see meta.json)" | tee -a $out.tmp; continue; }
   res=$($here/tools/mutant.sh $d/patch.diff quick $props "$@" 2>&1 | tr '\n' ' ' | sed 's/(run [0-9]*, tape[^)]*)//g' | cut -c1-400)
   echo "$id: $res" | tee -a $out.tmp
 done
